@@ -74,6 +74,8 @@ def gen_case(d, shard, tier):
             a = gen.mpf_any(d, p, maxbits)
             c["a"] = J(a)
             c["b"] = J(gen.mpf_relative(d, a, p, maxbits) if a[1] else gen.mpf_any(d, p, maxbits))
+            if d.bool():
+                c["a"], c["b"] = c["b"], c["a"]
         elif op in ("mul", "div"):
             a = gen.mpf_any(d, p, maxbits)
             c["a"] = J(a)
@@ -138,6 +140,9 @@ def gen_case(d, shard, tier):
         op = d.weighted([(5, "add"), (5, "sub"), (5, "mul"), (5, "div"), (2, "neg"), (2, "abs"), (2, "pos"),
                          (2, "sqrt"), (3, "ctor")])
         c = {"layer": "mp", "op": op, "p": p}
+        # the context's rounding cell (what the operators read); nearest is the public default, the other modes
+        # are what code sharing the context machinery (e.g. interval helpers) relies on
+        c["rnd"] = "n" if d.int(0, 2) else gen.rnd(d)
         if op in BIN_OPS:
             x = _operand_typed(d, p)
             y = _operand_typed(d, p)
@@ -465,6 +470,8 @@ def check_case(c):
     if layer == "mp":
         op, p = c["op"], c["p"]
         mp.prec = p
+        rnd = c.get("rnd", "n")
+        mp._prec_rounding[1] = rnd
         try:
             if op in BIN_OPS:
                 x, xr = _typed(mpm, c["x"])
@@ -472,26 +479,26 @@ def check_case(c):
                 import operator
                 f = {"add": operator.add, "sub": operator.sub, "mul": operator.mul, "div": operator.truediv}[op]
                 got = _call(f, x, y)
-                want = expected_binary(op, xr, yr, p, "n")
+                want = expected_binary(op, xr, yr, p, rnd)
                 res.nontrivial = _nontrivial_bin(op, xr, yr, p, got)
-                _cmp(res, "mp:%s:%s,%s" % (op, c["x"][0], c["y"][0]), got, want,
+                _cmp(res, "mp:%s:%s,%s:%s" % (op, c["x"][0], c["y"][0], rnd), got, want,
                      "%r %s %r at prec %d" % (c["x"], op, c["y"], p))
             elif op == "ctor":
                 kind = c["kind"]
                 if kind in ("int", "float", "mpf"):
                     x, xr = _typed(mpm, c["x"])
                     got = _call(mp.mpf, x)
-                    want = exact.round_raw(xr, p, "n")
+                    want = exact.round_raw(xr, p, rnd)
                     res.nontrivial = xr[3] > p
                 elif kind == "manexp":
                     m, e = int(c["man"]), c["exp"]
                     got = _call(mp.mpf, (m, e))
-                    want = exact.round_dyadic(m, e, p, "n")
+                    want = exact.round_dyadic(m, e, p, rnd)
                     res.nontrivial = abs(m).bit_length() > p
                 elif kind == "raw4":
                     r = U(c["raw"])
                     got = _call(mp.mpf, r)
-                    want = exact.round_raw(r, p, "n")
+                    want = exact.round_raw(r, p, rnd)
                     res.nontrivial = r[3] > p
                 else:
                     fr = Fraction(int(c["num"]), int(c["den"]))
@@ -499,25 +506,26 @@ def check_case(c):
                         got = _call(mp.mpf, fr)
                     else:
                         got = _call(mp.mpmathify, fr)
-                    want = exact.round_fraction(fr, p, "n")
+                    want = exact.round_fraction(fr, p, rnd)
                     res.nontrivial = True
-                _cmp(res, "mp:ctor:" + kind, got, want, "mpf ctor %s at prec %d" % (kind, p))
+                _cmp(res, "mp:ctor:%s:%s" % (kind, rnd), got, want, "mpf ctor %s at prec %d" % (kind, p))
             else:
                 x, xr = _typed(mpm, c["x"])
                 import operator
                 if op == "sqrt":
                     got = _call(mp.sqrt, x)
-                    want = expected_unary("sqrt", xr, p, "n")
+                    want = expected_unary("sqrt", xr, p, rnd)
                     if want == "ComplexResult":
                         want = "complex"
                 else:
                     f = {"neg": operator.neg, "abs": abs, "pos": operator.pos}[op]
                     got = _call(f, x)
-                    want = expected_unary(op, xr, p, "n")
+                    want = expected_unary(op, xr, p, rnd)
                 res.nontrivial = xr[3] > p or op == "sqrt"
-                _cmp(res, "mp:" + op, got, want, "%s(%r) at prec %d" % (op, c["x"], p))
+                _cmp(res, "mp:%s:%s" % (op, rnd), got, want, "%s(%r) at prec %d" % (op, c["x"], p))
         finally:
             mp.prec = 53
+            mp._prec_rounding[1] = "n"
         return res
 
     if layer == "fkw":
